@@ -25,6 +25,10 @@ CLAIMS = {
          'Alarm::activeTimer/onTimeExpired/enable/disable/cleanup/refresh under unbounded CBMC contracts: the armed delay in ms (64-bit) is never shorter than the wall-clock distance for every distance, the computation starts from max(now, previous target) so one instant is served once, re-arm before the user callback, a callback that disables the alarm leaves it disabled, disable/cleanup disarm. Next-instant functions of the one-shot, weekly and workday alarms: result matches the configuration, is strictly after the current time and no earlier instant matches (ghost witness) - bounded domain (current time < 32 days from the epoch, thorough 1024 days; all masks, seconds of day, calendars symbolic; workday scan by loop contract).',
          'Trusted: printer, CBMC, clock / time-zone / TimerEvent / callback stubs. / and % by 86400 over 32 bits are out of solver reach, hence the bounded domain for the calendar arithmetic (periodicity beyond the window is an unchecked argument). CronAlarm / ccronexpr not covered.',
          'CBMC function contracts (unbounded) + bounded-domain contracts for the calendar arithmetic', '6 C20'),
+ 'C13': ('other',
+         'KeyEventScanner::next total over all bytes x states (loop-free, full domain). Line-editor key handlers and history under unbounded CBMC contracts on an abstract string model (exact lengths, abstract contents): session invariant (history <= 20, history index and cursor in range), no std:: exception escapes, no container indexed out of range, (cursor, length, history index) evolve as in the reference editor; history commands !n / !-n / !! for every stoi result or exception and every history length.',
+         'Trusted: printer, CBMC, std::string (size/tag), std::deque, std::stoi, stringstream models; Connection stubs. Text contents of the edited line, telnet negotiation (telnetd.cpp), split_cmdline, node tree and session teardown are not covered.',
+         'CBMC function contracts on mechanically extracted C with abstract string/container models', '6 C13'),
  'C19': ('proof',
          'Per-function CBMC contracts and loop-free/complete-unwinding lemmas on the C re-printed from the real codec sources: size functions, frames (no write beyond capacity, no read outside input), exact inverse on every value, CRC/checksum/MD5/AES equal to reference definitions written from the standards.',
          'Trusted: clang-AST->C printer, CBMC+SAT, allocator never fails, libc models; std::string/vector overloads only through their shared loops; see evidence.assumptions.',
